@@ -18,7 +18,7 @@ type (
 		Raw bool // *schema.RawExpr, else *schema.Literal
 		V   string
 	}
-	Gen struct{ Expr, Type string }
+	Gen   struct{ Expr, Type string }
 	Ident struct {
 		Gen        string
 		Start, Inc int64
@@ -42,15 +42,15 @@ type (
 		Prefix int // mysql SubPart
 	}
 	Idx struct {
-		Name     string
-		Unique   bool
-		Parts    []Part
-		Type     string   // mysql/postgres IndexType ("" = attribute absent)
-		Pred     *string  // sqlite/postgres IndexPredicate
-		Include  []string // postgres IndexInclude
-		NullsND  bool     // postgres NULLS NOT DISTINCT
-		Comment  *string
-		Origin   *string // sqlite IndexOrigin
+		Name    string
+		Unique  bool
+		Parts   []Part
+		Type    string   // mysql/postgres IndexType ("" = attribute absent)
+		Pred    *string  // sqlite/postgres IndexPredicate
+		Include []string // postgres IndexInclude
+		NullsND bool     // postgres NULLS NOT DISTINCT
+		Comment *string
+		Origin  *string // sqlite IndexOrigin
 	}
 	FK struct {
 		Symbol   string
@@ -72,13 +72,13 @@ type (
 		Idx          []Idx
 		FKs          []FK
 		Checks       []Check
-		WithoutRowID bool    // sqlite
-		Strict       bool    // sqlite
-		Comment      *string // mysql/postgres
-		Charset      *string // mysql
-		Collation    *string // mysql
-		Engine       *string // mysql
-		AutoInc      int64   // mysql (0 = absent)
+		WithoutRowID bool       // sqlite
+		Strict       bool       // sqlite
+		Comment      *string    // mysql/postgres
+		Charset      *string    // mysql
+		Collation    *string    // mysql
+		Engine       *string    // mysql
+		AutoInc      int64      // mysql (0 = absent)
 		AutoIncCols  []string   // sqlite: columns carrying sqlite.AutoIncrement
 		Uniques      [][]string // sqlite: inline UNIQUE constraints (raw setup only; Atlas never prints them)
 	}
